@@ -25,4 +25,5 @@ d1f956e C14
 35fe97c C10
 2e2c7f6 C10
 de31ebe C13
+f6d277f C13
 LIST
